@@ -28,13 +28,24 @@ pub fn run(data: &[u8], ctx: &mut Ctx) -> Outcome {
     // policy
     let (max_groups, max_members) = if ctx.tier_thorough { (4, 5) } else { (3, 4) };
     let mut groups: Vec<(usize, usize)> = Vec::new(); // (threshold, count)
-    let g = 1 + src.below(max_groups);
+    // "wide" class: one or two groups, one of them with 9-16 members (SSKR allows 16); subsets are then
+    // sampled around the quorum boundary instead of enumerated
+    let wide = src.chance(40);
+    if wide {
+        let count = 9 + src.below(8);
+        groups.push((2 + src.below(2), count));
+        if src.bool() {
+            groups.push((1, 1 + src.below(2)));
+        }
+    }
+    let g = if wide { 0 } else { 1 + src.below(max_groups) };
     let mut total = 0;
     for _ in 0..g {
         let count = 1 + src.below(max_members);
         if total + count > 12 {
             break;
         }
+        let _ = wide;
         total += count;
         let thr = 1 + src.below(count);
         groups.push((thr, count));
@@ -101,7 +112,29 @@ pub fn run(data: &[u8], ctx: &mut Ctx) -> Outcome {
     let mut at_boundary = 0u64;
     let mut below_boundary = 0u64;
     let mut joins = 0u64;
-    for mask in 1u32..(1u32 << n) {
+    let masks: Vec<u32> = if n <= 12 {
+        (1u32..(1u32 << n)).collect()
+    } else {
+        // sampled: every single share, every pair, 300 generated subsets of size <= 4, and the full set
+        ctx.class("wide-group(sampled subsets)");
+        let mut v: Vec<u32> = Vec::new();
+        for i in 0..n {
+            v.push(1 << i);
+            for j in i + 1..n {
+                v.push((1 << i) | (1 << j));
+            }
+        }
+        for _ in 0..300 {
+            let mut mk = 0u32;
+            for _ in 0..1 + src.below(4) {
+                mk |= 1 << src.below(n);
+            }
+            v.push(mk);
+        }
+        v.push((1u32 << n) - 1);
+        v
+    };
+    for mask in masks {
         let mut present = vec![0usize; groups.len()];
         let mut subset: Vec<&Envelope> = Vec::new();
         for i in 0..n {
@@ -162,6 +195,9 @@ pub fn run(data: &[u8], ctx: &mut Ctx) -> Outcome {
     ctx.count("joins", joins);
     ctx.count("subsets-at-quorum-boundary", at_boundary);
     ctx.count("subsets-one-below-quorum", below_boundary);
+    if n <= 12 {
+        ctx.class("exhaustive-subsets");
+    }
     if wrapped_form {
         // the documented flow: join, then unwrap, gives the original
         let all: Vec<&Envelope> = flat.iter().map(|x| &x.1).collect();
